@@ -453,3 +453,32 @@ impl World {
         }
     }
 }
+
+impl World {
+    /// Historical read (C07): the full projection at `heads`, plus the same projection of
+    /// fork_at(heads) (which must be a document holding exactly the ancestors of heads).
+    pub fn probe_readat(&mut self, r: usize, heads: &[ChangeHash]) {
+        let ev = json!({"ev":"readat","r":r+1,"heads":enc::hashes_sorted(heads)});
+        let heads = heads.to_vec();
+        let saved = self.obs_level;
+        self.guarded(r, ev, |w| {
+            let v = proj::view(&w.reps[r], Some(&heads));
+            let mut out = json!({"res":"ok","view":v});
+            match w.reps[r].fork_at(&heads) {
+                Ok(f) => {
+                    let applied: Vec<ChangeHash> = f.get_changes(&[]).iter().map(|c| c.hash()).collect();
+                    out["fork"] = json!({
+                        "heads": enc::hashes_sorted(&f.get_heads()),
+                        "applied": enc::hashes_sorted(&applied),
+                        "view": proj::view(&f, None),
+                    });
+                }
+                Err(e) => {
+                    out["fork"] = json!({"err": calls::err_name(&e)});
+                }
+            }
+            out
+        });
+        self.obs_level = saved;
+    }
+}
